@@ -8,13 +8,14 @@ import (
 )
 
 func (t *Target) Authorized(r *http.Request, w http.ResponseWriter, authSchemes map[string]auth.AuthScheme) bool {
-	if t.AuthScheme == "" {
+	if t.AuthScheme == "" && !t.authRequired {
 		return true
 	}
 
 	scheme := authSchemes[t.AuthScheme]
 
-	if scheme == nil {
+	// an auth option without a value names no scheme
+	if scheme == nil || t.AuthScheme == "" {
 		log.Printf("[ERROR] unknown auth scheme '%s'\n", t.AuthScheme)
 		return false
 	}
